@@ -216,13 +216,27 @@ theorem d20_witness :
     shown (scenarioD20 Cfg.repaired) = ["z", "NULL"] := by
   decide
 
-/-- F16-ENDPUSH (open, every variant): an iterator created on an empty list (or run to the end)
-    dereferences NULL after a push that appends a record -/
+/-- push on an empty list with an iterator; run to the end, push a host that joins the last record;
+    pop the host the iterator stands on and push it again -/
+def scenarioEndPush (cfg : Cfg) : EM (List String) := do
+  let e := itNew EL.new 0
+  let (_, _, e) ← pushE cfg e "z".toList
+  let (xs, e) ← nexts cfg 2 e 0
+  let (_, _, e) ← pushE cfg e "a[1-2]".toList
+  let (ys, e) ← nexts cfg 3 e 0
+  let (_, _, e) ← pushE cfg e "a3".toList
+  let (zs, e) ← nexts cfg 1 e 0
+  let (_, e) ← popE cfg e
+  let (_, _, e) ← pushE cfg e "a3".toList
+  let (ws, _) ← nexts cfg 2 e 0
+  pure (strs (xs ++ ys ++ zs ++ ws))
+
+/-- F16-ENDPUSH: as found, an iterator created on an empty list (or run to the end) dereferences
+    NULL after a push that appends a record; repaired (findings/C16-ENDPUSH.patch), it hands out
+    every host pushed after it ran out, each once -/
 theorem endpush_witness :
-    shown (do let e := itNew EL.new 0
-              let (_, _, e) ← pushE Cfg.repaired e "z".toList
-              let (xs, _) ← nexts Cfg.repaired 1 e 0
-              pure (strs xs)) = ["UB: NULL range pointer dereferenced"] := by
+    shown (scenarioEndPush { Cfg.repaired with fixEndPush := false }) = ["UB: NULL range pointer dereferenced"] ∧
+    shown (scenarioEndPush Cfg.repaired) = ["z", "NULL", "a1", "a2", "NULL", "a3", "a3", "NULL"] := by
   decide
 
 /-- F16-DELETE-UNDER-ITERATOR (open, every variant): `a[1-5]`, it_next (a1), delete position 0,
